@@ -15,7 +15,7 @@
 (***************************************************************************)
 EXTENDS Naturals, Sequences, FiniteSets, TLC
 
-CONSTANTS Table,            \* "misuse" | "config" | "ctor"
+CONSTANTS Table,            \* "misuse" | "config" | "ctor" | "meta"
           SwNewWrapAlways   \* F12: the wrapper around object.__new__ forwards the constructor arguments blindly
 
 VARIABLES cell
@@ -154,7 +154,27 @@ ContractedAccepts(c) ==
 Instantiable == (cell.t = "ctor" /\ CtorApplies(cell)) => (ContractedAccepts(cell) <=> BareAccepts(cell))
 
 -----------------------------------------------------------------------------
-Cells == CASE Table = "misuse" -> {c \in MisuseCells : MisuseApplies(c.m, c.d, c.c)}
+(* C14: what a contracted callable shows to introspection is what the decorated object showed.                  *)
+\* how the contracts get onto the callable; "foreign_*": an ordinary functools.wraps decorator sits between the
+\* function and the contracts and changes the sync / async nature of what the contracts decorate
+MetaHows  == {"require", "ensure", "snapshot_ensure", "require_ensure", "invariant", "dbc_invariant",
+              "foreign_makes_async", "foreign_makes_sync"}
+MetaKinds == {"function", "method", "async_function", "async_method", "abstract_method", "abstract_async_method",
+              "static", "classm", "getter"}
+MetaAttrs == {"name", "qualname", "doc", "module", "annotations", "signature", "abstract", "class_abstract",
+              "coroutine", "wrapped"}
+MetaCells == {[t |-> "meta", how |-> h, kind |-> k, attr |-> a] : h \in MetaHows, k \in MetaKinds, a \in MetaAttrs}
+MetaApplies(c) ==
+  /\ (c.how \in {"invariant", "dbc_invariant"} => c.kind \in {"method", "async_method", "abstract_method", "abstract_async_method", "getter"})
+  /\ (c.how \in {"foreign_makes_async", "foreign_makes_sync"} => c.kind \in {"function", "method"})
+  /\ (c.attr = "class_abstract" => c.kind \in {"abstract_method", "abstract_async_method"})
+\* the property: every attribute is the one of the decorated object ("same"); there is no cell where it may differ
+MetaExpected(c) == "same"
+Transparent == (cell.t = "meta" /\ MetaApplies(cell)) => MetaExpected(cell) = "same"
+
+-----------------------------------------------------------------------------
+Cells == CASE Table = "meta" -> {c \in MetaCells : MetaApplies(c)}
+           [] Table = "misuse" -> {c \in MisuseCells : MisuseApplies(c.m, c.d, c.c)}
            [] Table = "config" -> {c \in ConfigCells : ConfigApplies(c.d, c.c)}
            [] Table = "ctor" -> {c \in CtorCells : CtorApplies(c)}
 TInit == cell \in Cells
@@ -162,7 +182,8 @@ TNext == UNCHANGED tvars
 TSpec == TInit /\ [][TNext]_tvars
 
 Expected ==
-  CASE cell.t = "misuse" -> [cell |-> cell, moment |-> MisuseExpected(cell.m, cell.d, cell.c).moment,
+  CASE cell.t = "meta" -> [cell |-> cell, moment |-> MetaExpected(cell), exc |-> "", on |-> FALSE, ok |-> FALSE]
+    [] cell.t = "misuse" -> [cell |-> cell, moment |-> MisuseExpected(cell.m, cell.d, cell.c).moment,
                              exc |-> MisuseExpected(cell.m, cell.d, cell.c).exc, on |-> FALSE, ok |-> FALSE]
     [] cell.t = "config" -> [cell |-> cell, moment |-> "", exc |-> "", on |-> Enabled(cell.arg, cell.mode, cell.env), ok |-> FALSE]
     [] cell.t = "ctor" -> [cell |-> cell, moment |-> "", exc |-> "", on |-> FALSE, ok |-> BareAccepts(cell)]
